@@ -1,13 +1,13 @@
 CONSTANTS
-  MaxFrames = 2
+  MaxFrames = 3
   Lens = {3}
   H = 3
   Preface = 0
   Peek = 0
-  MaxTimeouts = 1
-  Priors = {0, 1, 2}
+  MaxTimeouts = 0
+  Priors = {0}
   DispatchBound = 2
-  Defects = {"ShrinkDropsBufferedBytes"}
+  Defects = {"BoundedFramesPerDispatch"}
 SPECIFICATION Spec
 INVARIANTS InOrderOnce NoEarly Prompt Consumed PrefaceOnce NoError NoByteLost LoopUntilDry SameForEveryCut
 CHECK_DEADLOCK FALSE
